@@ -380,6 +380,24 @@ func errStr(e error) interface{} {
 	return "error: " + e.Error()
 }
 
+// longIDs: a fresh list of n distinct voxels of the region's zoom (a 32-column block, a few vertical layers), extended or spatial notation.
+// Lists of several hundred IDs reach code that short lists never do: size thresholds behind which an implementation may split the work
+// across internal goroutines, grow / reuse pooled buffers, or switch algorithms.
+func longIDs(g *Region, r *rand.Rand, n int, sid bool) []string {
+	l := make([]string, 0, n)
+	f0 := int64(r.Intn(5) - 2)
+	for i := 0; i < n; i++ {
+		x, y, f := g.X0+int64(i%32), g.Y0+int64((i/32)%32), f0+int64(i/1024)
+		if sid {
+			l = append(l, fmt.Sprintf("%d/%d/%d/%d", g.Z, f, x, y))
+		} else {
+			l = append(l, fmt.Sprintf("%d/%d/%d/%d/%d", g.Z, x, y, g.Z, f))
+		}
+	}
+	r.Shuffle(len(l), func(i, j int) { l[i], l[j] = l[j], l[i] })
+	return l
+}
+
 func zoomNear(r *rand.Rand, z int64) int64 { return z - 2 + int64(r.Intn(4)) }
 
 // Catalogue: every exported function and method of every package of the library.
@@ -584,6 +602,38 @@ var Catalogue = []Call{
 	}},
 	{"operated.GetNspatialIdsAroundVoxcels/edge", true, func(p *Pool, r, k *rand.Rand) interface{} {
 		a, e := operated.GetNspatialIdsAroundVoxcels(window(r, p.Edge, 3), int64(r.Intn(3)), int64(r.Intn(2)))
+		return rs(a, errStr(e))
+	}},
+	// ---- long lists (300..1200 IDs): internal work splitting, pooled buffers and algorithm switches sit behind size thresholds
+	{"integrate.ChangeExtendedSpatialIdsZoom/long", true, func(p *Pool, r, k *rand.Rand) interface{} {
+		g := p.reg(r)
+		a, e := integrate.ChangeExtendedSpatialIdsZoom(longIDs(g, r, 300+r.Intn(900), false), g.Z+int64(k.Intn(2)), g.Z+int64(k.Intn(2)))
+		return rs(a, errStr(e))
+	}},
+	{"integrate.ChangeSpatialIdsZoom/long", true, func(p *Pool, r, k *rand.Rand) interface{} {
+		g := p.reg(r)
+		a, e := integrate.ChangeSpatialIdsZoom(longIDs(g, r, 300+r.Intn(900), true), g.Z+int64(k.Intn(2)))
+		return rs(a, errStr(e))
+	}},
+	{"integrate.MergeExtendedSpatialIds/long", true, func(p *Pool, r, k *rand.Rand) interface{} {
+		g := p.reg(r)
+		a, e := integrate.MergeExtendedSpatialIds(longIDs(g, r, 300+r.Intn(700), false), g.Z-1, g.Z-1)
+		return rs(a, errStr(e))
+	}},
+	{"shape.ConvertSpatialIdsToExtendedSpatialIds/long", false, func(p *Pool, r, k *rand.Rand) interface{} {
+		g := p.reg(r)
+		a, e := shape.ConvertSpatialIdsToExtendedSpatialIds(longIDs(g, r, 300+r.Intn(900), true))
+		return rs(a, errStr(e))
+	}},
+	{"detector.CheckExtendedSpatialIdsArrayOverlap/long", false, func(p *Pool, r, k *rand.Rand) interface{} {
+		g := p.reg(r)
+		l := longIDs(g, r, 300+r.Intn(300), false)
+		b, e := detector.CheckExtendedSpatialIdsArrayOverlap(l[:len(l)/2], l[len(l)/2:])
+		return rs(b, errStr(e))
+	}},
+	{"operated.GetNspatialIdsAroundVoxcels/long", true, func(p *Pool, r, k *rand.Rand) interface{} {
+		g := p.reg(r)
+		a, e := operated.GetNspatialIdsAroundVoxcels(longIDs(g, r, 300+r.Intn(300), false), int64(k.Intn(2)), int64(k.Intn(2)))
 		return rs(a, errStr(e))
 	}},
 	// ---- other packages at mixed zooms
